@@ -100,20 +100,6 @@ fn base(rng: &mut StdRng, id: String, seed: u64) -> Scenario {
     sc
 }
 
-/// F2 isolation: an RFC 4884 length field >= 64 words (v4) / 32 double-words (v6) overflows `u8`
-/// arithmetic in the codec; that belongs to C04/C14, so big quotations use other forms elsewhere.
-pub fn isolate_f2(sc: &mut Scenario) {
-    if sc.packet_size > 200 {
-        for p in sc.topo.paths.iter_mut().chain(sc.topo.paths_after.iter_mut()) {
-            for h in &mut p.hops {
-                if h.quote == 2 {
-                    h.quote = 3;
-                }
-            }
-        }
-    }
-}
-
 /// Round-loop family: C01 C06 C08 C10 (and the no-fault half of C09).
 pub fn gen_loop(seed: u64, n: usize, family: &str) -> Vec<Scenario> {
     let mut rng = StdRng::seed_from_u64(seed ^ 0x5eed_0001);
@@ -138,7 +124,6 @@ pub fn gen_loop(seed: u64, n: usize, family: &str) -> Vec<Scenario> {
             sc.topo.change_round = rng.random_range(1..4);
             sc.topo.paths_after = (0..npaths).map(|p| random_path(&mut rng, p + 5, maxlen, true)).collect();
         }
-        isolate_f2(&mut sc);
         sc.max_rounds = rng.random_range(2..=8);
         let unit = *pick(&mut rng, &[1_000u64, 10_000, 10_000, 50_000]);
         sc.read_timeout_us = unit;
@@ -260,7 +245,6 @@ pub fn gen_sched(seed: u64, n: usize) -> Vec<Scenario> {
         let maxlen = sc.max_ttl.min(40);
         let npaths = sc.topo.paths.len() as u16;
         sc.topo.paths = (0..npaths).map(|p| random_path(&mut rng, p, maxlen, true)).collect();
-        isolate_f2(sc);
         sc.read_timeout_us = 1_000;
         sc.max_round_us = *pick(&mut rng, &[20_000, 100_000, 400_000]);
         sc.min_round_us = sc.min_round_us.min(sc.max_round_us);
@@ -438,8 +422,7 @@ pub fn gen_codec(seed: u64, n: usize) -> Vec<Scenario> {
                 }],
                 ..Topo::default()
             };
-            isolate_f2(&mut sc);
-            sc.first_ttl = *pick(&mut rng, &[1, 1, 2]);
+                sc.first_ttl = *pick(&mut rng, &[1, 1, 2]);
             sc.max_ttl = *pick(&mut rng, &[8, 30, 254]);
             sc.max_inflight = 24;
             sc.max_rounds = 3;
